@@ -53,6 +53,7 @@ class Rec:
         self.criteria = criteria or ["minimize"] * m
         self.constrained = constrained
         self.vary_return = True
+        self.cost_offset = 0.0       # objectives of large magnitude (1e9 + ...): only for checks that project costs to ranks
         self.handed_out = {}         # design -> the very object the objective returned last (must not be modified by the framework)
         self.script = script or (lambda k, attempt, callno: "ok")
         self.gate = gate
@@ -99,10 +100,10 @@ class Rec:
         if ind.costs is None or len(ind.costs) == 0:
             return 0
         want = [float(c) for c in ind.costs]          # the WHOLE stored cost list must be what the objective returned (no extra entries)
-        if [n / 1e9 for n in fp_costs(ind.vector, self.m)] == want:
+        if [n / 1e9 + self.cost_offset for n in fp_costs(ind.vector, self.m)] == want:
             return self.vkey(ind.vector)
         for t, k in list(self.vkeys.items()):
-            if [n / 1e9 for n in fp_costs(t, self.m)] == want:
+            if [n / 1e9 + self.cost_offset for n in fp_costs(t, self.m)] == want:
                 return k
         return -1
 
@@ -139,7 +140,7 @@ class Rec:
                 self.attempt[k] = 0
                 self.returned[k] = fp_costs(individual.vector, self.m)
                 self.events.append({"ev": "ret", "k": k, "out": "ok"})
-                vals = [n / 1e9 for n in self.returned[k]]
+                vals = [n / 1e9 + self.cost_offset for n in self.returned[k]]
                 # the objective may hand its costs back as a list, a tuple or a float64 array (and keeps a reference to what it returned)
                 shape = (k + callno) % 5 if self.vary_return else 0
                 if shape == 3:
@@ -227,7 +228,7 @@ class Rec:
             want = d["costs"][:self.m]
             cf = -1
             for t, k in list(self.vkeys.items()):
-                if [n / 1e9 for n in fp_costs(t, self.m)] == want:
+                if [n / 1e9 + self.cost_offset for n in fp_costs(t, self.m)] == want:
                     cf = k
                     break
             rows.append({"k": byid[rid], "v": v, "cf": cf, "st": d["state"]})
